@@ -8,7 +8,10 @@ for d in "$@"; do
   ov="$(python3 -c "import json,sys; m=json.load(open('seeded/CAUGHT_BY.json')); v=m.get(sys.argv[1]); print(' '.join(v) if v else '')" "$d" 2>/dev/null)"
   chk="$pid"; tier=quick
   if [ -n "$ov" ]; then chk="${ov%% *}"; tier="${ov##* }"; fi
-  out="$(MUT_LINES=3 tools/mutest.sh "seeded/$d/patch.diff" "$chk" "$tier" 2>&1)"
+  # "quick+env": quick exploration plus the environment passes (python -O, ambient decimal context) that the thorough
+  # tier always runs - used for seeds that only show in such an environment, to keep the regression run short
+  envp=""; if [ "$tier" = "quick+env" ]; then envp=1; tier=quick; fi
+  out="$(VERIF_ENV_PASSES=$envp MUT_LINES=3 tools/mutest.sh "seeded/$d/patch.diff" "$chk" "$tier" 2>&1)"
   verdict="$(echo "$out" | grep -E "^(CAUGHT|MISSED|PATCH-FAILED|FAULT)" | head -1)"
   first="$(echo "$out" | grep "detail:" | head -1 | cut -c1-220)"
   echo "$d | ${verdict:-?} | $first"
